@@ -1569,6 +1569,12 @@ impl<'a> Parser<'a> {
                 | TokenKind::Export
                 | TokenKind::Default
                 | TokenKind::Infer
+                | TokenKind::Any
+                | TokenKind::Unknown
+                | TokenKind::Never
+                | TokenKind::Keyof
+                | TokenKind::Is
+                | TokenKind::Asserts
         )
     }
 
@@ -3793,34 +3799,20 @@ impl<'a> Parser<'a> {
 
                     Ok(ty)
                 } else {
-                    let ty = self.parse_type_reference()?;
-                    let mut ty = TypeAnnotation::Reference(ty);
-
-                    // Array shorthand or indexed access type
-                    while self.check(&TokenKind::LBracket) {
-                        self.advance();
-                        if self.check(&TokenKind::RBracket) {
-                            // Array type: T[]
-                            self.advance();
-                            ty = TypeAnnotation::Array(ArrayType {
-                                element_type: Box::new(ty),
-                                span: self.span_from(start),
-                            });
-                        } else {
-                            // Indexed access type: T["key"] or T[K]
-                            let index_type = self.parse_type_annotation()?;
-                            self.require_token(&TokenKind::RBracket)?;
-                            ty = TypeAnnotation::Indexed(IndexedAccessType {
-                                object_type: Box::new(ty),
-                                index_type: Box::new(index_type),
-                                span: self.span_from(start),
-                            });
-                        }
-                    }
-
-                    Ok(ty)
+                    self.parse_type_reference_with_suffix(start)
                 }
             }
+
+            // Contextual keywords used as type names: `type from = number; let x: from`
+            TokenKind::Type
+            | TokenKind::From
+            | TokenKind::As
+            | TokenKind::Of
+            | TokenKind::Namespace
+            | TokenKind::Module
+            | TokenKind::Is
+            | TokenKind::Asserts => self.parse_type_reference_with_suffix(start),
+
 
             // Object type or mapped type
             TokenKind::LBrace => {
@@ -4073,6 +4065,21 @@ impl<'a> Parser<'a> {
             // Parameter name (must be identifier for function type)
             let name = match &self.current.kind {
                 TokenKind::Identifier(n) => n.clone(),
+                // Contextual keywords are valid parameter names
+                TokenKind::Type
+                | TokenKind::From
+                | TokenKind::As
+                | TokenKind::Of
+                | TokenKind::Namespace
+                | TokenKind::Module
+                | TokenKind::Any
+                | TokenKind::Unknown
+                | TokenKind::Never
+                | TokenKind::Keyof
+                | TokenKind::Infer
+                | TokenKind::Is
+                | TokenKind::Asserts
+                | TokenKind::Readonly => self.keyword_to_js_string(),
                 _ => return Err(self.unexpected_token("parameter name")),
             };
             self.advance();
@@ -4244,6 +4251,36 @@ impl<'a> Parser<'a> {
             optional,
             span: self.span_from(start),
         })))
+    }
+
+    /// Parse a type reference followed by any `[]` / `[K]` suffixes.
+    fn parse_type_reference_with_suffix(&mut self, start: Span) -> Result<TypeAnnotation, JsError> {
+        let ty = self.parse_type_reference()?;
+        let mut ty = TypeAnnotation::Reference(ty);
+
+        // Array shorthand or indexed access type
+        while self.check(&TokenKind::LBracket) {
+            self.advance();
+            if self.check(&TokenKind::RBracket) {
+                // Array type: T[]
+                self.advance();
+                ty = TypeAnnotation::Array(ArrayType {
+                    element_type: Box::new(ty),
+                    span: self.span_from(start),
+                });
+            } else {
+                // Indexed access type: T["key"] or T[K]
+                let index_type = self.parse_type_annotation()?;
+                self.require_token(&TokenKind::RBracket)?;
+                ty = TypeAnnotation::Indexed(IndexedAccessType {
+                    object_type: Box::new(ty),
+                    index_type: Box::new(index_type),
+                    span: self.span_from(start),
+                });
+            }
+        }
+
+        Ok(ty)
     }
 
     fn parse_type_reference(&mut self) -> Result<TypeReference, JsError> {
@@ -4512,6 +4549,27 @@ impl<'a> Parser<'a> {
                 self.advance();
                 Ok(Identifier { name, span })
             }
+            // Contextual keywords are valid private names (`#type`, `#is`, ...)
+            TokenKind::Type
+            | TokenKind::From
+            | TokenKind::As
+            | TokenKind::Of
+            | TokenKind::Namespace
+            | TokenKind::Module
+            | TokenKind::Any
+            | TokenKind::Unknown
+            | TokenKind::Never
+            | TokenKind::Keyof
+            | TokenKind::Infer
+            | TokenKind::Is
+            | TokenKind::Asserts
+            | TokenKind::Readonly => {
+                let private_name = format!("#{}", self.keyword_to_js_string());
+                let name = self.intern(&private_name);
+                let span = self.current.span;
+                self.advance();
+                Ok(Identifier { name, span })
+            }
             _ => Err(self.unexpected_token("identifier after #")),
         }
     }
@@ -4724,8 +4782,27 @@ impl<'a> Parser<'a> {
         mem::discriminant(&next.kind) == mem::discriminant(kind)
     }
 
+    /// True if the current token can be used as an identifier: a plain identifier or one of
+    /// the contextual keywords that `parse_identifier` accepts as a name.
     fn check_identifier(&self) -> bool {
-        matches!(self.current.kind, TokenKind::Identifier(_))
+        matches!(
+            self.current.kind,
+            TokenKind::Identifier(_)
+                | TokenKind::Type
+                | TokenKind::From
+                | TokenKind::As
+                | TokenKind::Of
+                | TokenKind::Namespace
+                | TokenKind::Module
+                | TokenKind::Any
+                | TokenKind::Unknown
+                | TokenKind::Never
+                | TokenKind::Keyof
+                | TokenKind::Infer
+                | TokenKind::Is
+                | TokenKind::Asserts
+                | TokenKind::Readonly
+        )
     }
 
     fn check_keyword(&self, keyword: &str) -> bool {
@@ -4898,6 +4975,21 @@ impl<'a> Parser<'a> {
             | TokenKind::Number(_)
             | TokenKind::LBracket
             | TokenKind::Star => true, // Star for async *gen() {}
+            // Contextual keywords are property names too: `get type() {}`, `async of() {}`
+            TokenKind::Type
+            | TokenKind::From
+            | TokenKind::As
+            | TokenKind::Of
+            | TokenKind::Namespace
+            | TokenKind::Module
+            | TokenKind::Any
+            | TokenKind::Unknown
+            | TokenKind::Never
+            | TokenKind::Keyof
+            | TokenKind::Infer
+            | TokenKind::Is
+            | TokenKind::Asserts
+            | TokenKind::Readonly => true,
             // Keywords can be property names
             _ if self.is_keyword_kind(&next.kind) => true,
             // Anything else is unclear, assume it's a property name (not get/set keyword)
